@@ -227,9 +227,23 @@ func (la *LockAn) closureContext(f *ssa.Function) (lockState, bool) {
 		if _, isDefer := i.(*ssa.Defer); isDefer {
 			return
 		}
-		for _, a := range cc.Args {
-			if mc, ok := a.(*ssa.MakeClosure); ok && mc.Fn == f && syncCallbackReceivers[calleeName(cc)] {
+		for k, a := range cc.Args {
+			mc, ok := a.(*ssa.MakeClosure)
+			if !ok || mc.Fn != f {
+				continue
+			}
+			if syncCallbackReceivers[calleeName(cc)] {
 				s := la.stateAt(i)
+				if !found {
+					res, found = s, true
+				} else {
+					res = meetLock(res, s)
+				}
+				continue
+			}
+			// a helper of the module that runs the function it is given while it holds a lock
+			// (`func (d *drv) withConns(fn func() error) error { d.mu.Lock(); defer d.mu.Unlock(); return fn() }`)
+			if s, ok := la.paramCallContext(cc, k); ok {
 				if !found {
 					res, found = s, true
 				} else {
@@ -238,6 +252,40 @@ func (la *LockAn) closureContext(f *ssa.Function) (lockState, bool) {
 			}
 		}
 	})
+	return res, found
+}
+
+// paramCallContext: cc calls a module function h (statically) and passes a function value as argument k; h does nothing
+// with that parameter but call it (synchronously: not in a go or defer statement). The function value then runs with the
+// lock state h has at those calls — the meet over them. ok is false if h is not analysed yet or uses the parameter
+// in any other way (stores it, hands it on).
+func (la *LockAn) paramCallContext(cc *ssa.CallCommon, k int) (lockState, bool) {
+	h := cc.StaticCallee()
+	if h == nil || h.Blocks == nil || !la.c.w.inModule(h) || k >= len(h.Params) {
+		return nil, false
+	}
+	if _, analysed := la.entry[h]; !analysed {
+		return nil, false
+	}
+	var res lockState
+	found := false
+	for _, r := range referrers(h.Params[k]) {
+		switch x := r.(type) {
+		case *ssa.DebugRef:
+		case *ssa.Call:
+			if x.Call.Value != ssa.Value(h.Params[k]) {
+				return nil, false
+			}
+			s := la.stateAt(x)
+			if !found {
+				res, found = s, true
+			} else {
+				res = meetLock(res, s)
+			}
+		default:
+			return nil, false
+		}
+	}
 	return res, found
 }
 
@@ -268,7 +316,27 @@ func (la *LockAn) boundContext(f *ssa.Function) (lockState, bool) {
 					continue
 				}
 				call, isCall := r.(*ssa.Call)
-				if !isCall || (call.Call.Value != ssa.Value(mc) && !syncCallbackReceivers[calleeName(&call.Call)]) {
+				if isCall && call.Call.Value != ssa.Value(mc) && !syncCallbackReceivers[calleeName(&call.Call)] {
+					// handed to a helper of the module that only calls it, under whatever lock the helper holds there
+					handled := false
+					for k, a := range call.Call.Args {
+						if a == ssa.Value(mc) {
+							if s, ok := la.paramCallContext(&call.Call, k); ok {
+								handled = true
+								if !found {
+									res, found = s, true
+								} else {
+									res = meetLock(res, s)
+								}
+							}
+						}
+					}
+					if !handled {
+						okAll = false
+					}
+					continue
+				}
+				if !isCall {
 					okAll = false
 					continue
 				}
